@@ -12,6 +12,7 @@ package main
 
 import (
 	"bufio"
+	"bytes"
 	"encoding/json"
 	"flag"
 	"fmt"
@@ -20,6 +21,8 @@ import (
 	"path/filepath"
 	"sort"
 	"strings"
+
+	"github.com/wolimst/lib-secs2-hsms-go/pkg/ast"
 )
 
 type Case struct {
@@ -96,9 +99,53 @@ func (c *Ctx) emit(cs Case) {
 			}
 		}
 	}
+	// whatever the suite: the frame of a complete message is the frame of ITS header fields and ITS item, computed
+	// here from the accessors alone (a frame kept from another message, or from before a producer was applied, differs)
+	for i, x := range e.Pool {
+		if m, ok := x.(*ast.DataMessage); ok {
+			if why := frameMismatch(m); why != "" {
+				c.hit(id, cs, "frame-differs-from-accessors", fmt.Sprintf("entry %d: %s", i, why))
+				break
+			}
+		}
+	}
 	if c.monitor != nil {
 		c.monitor(c, id, cs, e, final)
 	}
+}
+
+// frameMismatch compares ToBytes() of a message with the frame built from its accessors; "" when they agree
+func frameMismatch(m *ast.DataMessage) (why string) {
+	defer func() {
+		if r := recover(); r != nil {
+			why = ""
+		}
+	}()
+	got := m.ToBytes()
+	complete := m.WaitBit() != "optional" && m.SessionID() != -1 && len(m.Variables()) == 0
+	if !complete {
+		if len(got) != 0 {
+			return fmt.Sprintf("an incomplete message encodes to %d bytes", len(got))
+		}
+		return ""
+	}
+	if len(got) < 14 {
+		return fmt.Sprintf("a complete message encodes to %d bytes", len(got))
+	}
+	n := len(got) - 4
+	b2 := byte(m.StreamCode())
+	if m.WaitBit() == "true" {
+		b2 |= 0x80
+	}
+	sys := m.SystemBytes()
+	if len(sys) != 4 {
+		return fmt.Sprintf("%d system bytes", len(sys))
+	}
+	want := []byte{byte(n >> 24), byte(n >> 16), byte(n >> 8), byte(n), byte(m.SessionID() >> 8), byte(m.SessionID()), b2, byte(m.FunctionCode()), 0, 0, sys[0], sys[1], sys[2], sys[3]}
+	if !bytes.Equal(got[:14], want) {
+		return fmt.Sprintf("ToBytes() starts % x, the accessors give % x (session id %d, wait bit %s, system bytes %x)", got[:14], want, m.SessionID(), m.WaitBit(), sys)
+	}
+	return ""
 }
 
 type suiteFn func(c *Ctx)
